@@ -1559,6 +1559,10 @@ class Exec:
             from . import lib
 
             return lib.slice_load(self, base, node.slice)
+        if base.ty.kind == "raw" and isinstance(base.aux, tuple) and base.aux and base.aux[0] == "frame-iloc":
+            from . import lib
+
+            return lib.subscript_hook(self, base, SV(None, T.RAW, aux=("opaque-key",)))  # positional selector, not evaluated
         key = self.eval(node.slice)
         return self.subscript_load(base, key)
 
